@@ -161,6 +161,21 @@ def m_len(eng, callee, args):
     return int(nd(args[0]).a.size)
 
 
+@model(r"impl_methods::<impl ArrayBase<.*>>::is_empty$", "is_empty() = some axis has length 0")
+def m_is_empty(eng, callee, args):
+    return int(nd(args[0]).a.size) == 0
+
+
+@model(r"impl_methods::<impl ArrayBase<.*>>::len_of$", "len_of(axis)")
+def m_len_of(eng, callee, args):
+    return int(nd(args[0]).a.shape[axis_of(args[1])])
+
+
+@model(r"impl_methods::<impl ArrayBase<.*>>::ndim$", "ndim()")
+def m_ndim(eng, callee, args):
+    return int(nd(args[0]).a.ndim)
+
+
 @model(r"impl_2d::<impl ArrayBase<.*>>::nrows$", "nrows")
 def m_nrows(eng, callee, args):
     return int(nd(args[0]).a.shape[0])
@@ -464,6 +479,16 @@ def m_axis_iter(eng, callee, args):
         idx[ax] = i
         out.append(ND(a[tuple(idx)]))
     return PyIter(out, len(out))
+
+
+@model(r"impl_methods::<impl ArrayBase<.*>>::(lanes|lanes_mut)$", "lanes(axis): 1-D views along the axis, remaining indices in row-major order")
+def m_lanes(eng, callee, args):
+    a = nd(args[0]).a
+    ax = axis_of(args[1])
+    if a.ndim <= 1:
+        return [ND(a)]
+    moved = np.moveaxis(a, ax, -1)
+    return [ND(moved[k]) for k in np.ndindex(*moved.shape[:-1])]
 
 
 @model(r"impl_methods::<impl ArrayBase<.*>>::(rows|rows_mut)$", "rows(): lanes along the last axis")
